@@ -244,14 +244,16 @@ def run_pickle(case, ctx, d):
         for a, b in case["linked"]:
             linked.setdefault(tuple(a), set()).add(tuple(b))
     m = pk(InMemMap, "stored", use_latlon=latlon, use_rtree=False, dir=d, linked_edges=linked, **kw)
-    nodes, edges, reopens = {}, [], 0
+    nodes, edges, reopens, repeated = {}, [], 0, False
     for op in case["ops"]:
         k = op[0]
         if k in ("add_node",):
             pk(m.add_node, op[1], tuple(op[2]))
             nodes[op[1]] = t2(op[2])
         elif k == "add_node_again":
-            continue  # SQLite-only flag
+            # InMemMap.add_node of a known label keeps the stored coordinates
+            pk(m.add_node, op[1], tuple(op[2]))
+            repeated = True
         elif k == "add_nodes":
             for l, p in op[1]:
                 pk(m.add_node, l, tuple(p))
@@ -294,7 +296,7 @@ def run_pickle(case, ctx, d):
                 if df:
                     raise Violation(f"reopen.{df[0]}", f"cycle {reopens}: {df[0]} before dump {df[1]!r}, after load {df[2]!r}")
             m = m2
-    return len(nodes), len(edges), reopens, {"deferred": False, "linked": False, "other_process": False}
+    return len(nodes), len(edges), reopens, {"deferred": False, "linked": False, "other_process": False, "repeated_node": repeated}
 
 
 def check_case(case, ctx):
@@ -310,7 +312,7 @@ def check_case(case, ctx):
         shutil.rmtree(d, ignore_errors=True)
     classes = [case["backend"], "latlon" if case["latlon"] else "planar", "cycles:%d" % min(reopens, 3)]
     if stats.get("repeated_node"):
-        classes.append("repeated-node(ignore_doubles)")
+        classes.append("repeated-node")
     if stats["deferred"]:
         classes.append("deferred-ops")
     if stats.get("linked"):
@@ -372,8 +374,8 @@ def _case(draw, tier):
             choices += ["reopen"]
         if backend == "sqlite":
             choices += ["reindex_nodes", "reindex_edges", "commit"]
-            if have:
-                choices += ["add_node_again"]
+        if have:
+            choices += ["add_node_again"]
             if len(have_edges) >= 2:
                 choices += ["connect_parallelroads", "connect_parallelroads", "connect_parallelroads"]
         k = gen.pick(draw, choices)
